@@ -610,7 +610,8 @@ static PARAMETERIZED_GATE_MATRICES: Lazy<HashMap<String, ParameterizedMatrix>> =
         (
             "PSWAP".to_string(),
             (|theta: Complex64| {
-                let (_0, _1, _c) = (real!(0.0), real!(1.0), theta.cos() + theta);
+                let (_0, _1) = (real!(0.0), real!(1.0));
+                let _c = theta.cos() + imag!(1.0) * theta.sin();
                 array![
                     [_1, _0, _0, _0],
                     [_0, _0, _c, _0],
